@@ -160,7 +160,7 @@ def _corr_one(args):
         return {"pairs": 0, "equations_evaluated": 0, "horizons": 0}, [{"layer": "L4", "text": text, "what": "exception " + c + ": " + str(e)[:200]}]
 
 def search(ctx, deep):
-    n = (36 if ctx.tier == "quick" else 150) * (3 if deep else 1)
+    n = (36 if ctx.tier == "quick" else 500) * (3 if deep else 1)
     H = 2
     work = [(ctx.seed * 2003 + j, H, n) for j in range(ctx.jobs)]
     nchecks = 0
